@@ -68,6 +68,7 @@ type Node struct {
 	Calls   uint64
 	Trace   func(string) // optional event log sink
 	Order   uint64       // map iteration order of this instance (instrumented builds)
+	Inter func(name string, f func()) // when set, runs the body of every call (C25 tier B: under the lock-point scheduler)
 }
 
 func tmConfig(c NodeCfg) *config.Config {
@@ -145,6 +146,9 @@ func (n *Node) call(name string, f func()) (cerr *CallErr) {
 				return
 			}
 			st := string(debug.Stack())
+			if rp, ok := r.(relayedPanic); ok { // raised in a scheduled task goroutine (C25 tier B)
+				r, st = rp.V, rp.Stack
+			}
 			msg := fmt.Sprint(r)
 			if len(msg) > 300 {
 				msg = msg[:300]
@@ -152,8 +156,18 @@ func (n *Node) call(name string, f func()) (cerr *CallErr) {
 			cerr = &CallErr{Call: name, Panic: msg, Site: topRepoFrame(st), Stack: st}
 		}
 	}()
-	f()
+	if n.Inter != nil {
+		n.Inter(name, f)
+	} else {
+		f()
+	}
 	return nil
+}
+
+// relayedPanic carries a panic (and its stack) out of a scheduled task into the calling goroutine.
+type relayedPanic struct {
+	V     interface{}
+	Stack string
 }
 
 func (n *Node) note(kind string, b []byte) {
